@@ -162,6 +162,12 @@ AddDatatype(env, name, ctorlist) ==
                        r |-> SortVal(p[1].k[p[2]].k[2], env1)]]
     IN [env1 EXCEPT !.ctors = newc @@ @, !.sels = news @@ @]
 
+RECURSIVE AddDatatypesFrom(_, _, _, _)
+AddDatatypesFrom(env, decls, ctorlists, i) ==
+    IF i > Len(decls) THEN env
+    ELSE AddDatatypesFrom(AddDatatype(env, decls[i].k[1].s, ctorlists[i]),
+                          decls, ctorlists, i + 1)
+
 AddCommand(env, c) ==
     LET h == HeadSym(c)
     IN CASE h = "declare-const" /\ Len(c.k) = 3 /\ IsLeaf(c.k[2]) ->
@@ -189,11 +195,15 @@ AddCommand(env, c) ==
             /\ IsList(c.k[3]) ->
               AddDatatype(env, c.k[2].s, c.k[3])
          [] h = "declare-datatypes" /\ Len(c.k) = 3 /\ IsList(c.k[2])
-            /\ IsList(c.k[3]) /\ Len(c.k[2].k) = 1 /\ Len(c.k[3].k) = 1
-            /\ IsList(c.k[2].k[1]) /\ Len(c.k[2].k[1].k) = 2
-            /\ IsLeaf(c.k[2].k[1].k[1]) /\ IsLeaf(c.k[2].k[1].k[2])
-            /\ c.k[2].k[1].k[2].s = "0" /\ IsList(c.k[3].k[1]) ->
-              AddDatatype(env, c.k[2].k[1].k[1].s, c.k[3].k[1])
+            /\ IsList(c.k[3]) /\ Len(c.k[2].k) = Len(c.k[3].k)
+            /\ \A i \in 1..Len(c.k[2].k) :
+                 /\ IsList(c.k[2].k[i]) /\ Len(c.k[2].k[i].k) = 2
+                 /\ IsLeaf(c.k[2].k[i].k[1]) /\ IsLeaf(c.k[2].k[i].k[2])
+                 /\ c.k[2].k[i].k[2].s = "0" /\ IsList(c.k[3].k[i]) ->
+              \* all sort names first (the datatypes may be mutually recursive)
+              AddDatatypesFrom(
+                [env EXCEPT !.dts = @ \cup {c.k[2].k[i].k[1].s : i \in 1..Len(c.k[2].k)}],
+                c.k[2].k, c.k[3].k, 1)
          [] OTHER -> env
 
 RECURSIVE EnvFrom(_, _, _)
